@@ -29,6 +29,7 @@ const (
 	VCapped   Verdict = "capped"
 	VFail     Verdict = "fail"
 	VDiverged Verdict = "diverged"
+	VStopped  Verdict = "stopped" // ended by Stop (e.g. a simulated kill)
 )
 
 type PanicInfo struct {
@@ -72,6 +73,7 @@ type thread struct {
 	waitDesc string
 	yielding bool
 	deadline time.Duration // for sleepers (enabled uses it); -1 = none
+	optional bool          // never taken by the base schedule while anything else (incl. CLOCK) can run
 }
 
 type timer struct {
@@ -400,12 +402,17 @@ func (s *sched) dispatch(from *thread, op string) {
 				cands = append(cands, from)
 			}
 		}
+		var optional []*thread
 		for _, t := range s.threads {
 			if t == from || t == s.preferred {
 				continue
 			}
 			if s.isEnabled(t) {
-				cands = append(cands, t)
+				if t.optional {
+					optional = append(optional, t)
+				} else {
+					cands = append(cands, t)
+				}
 			}
 		}
 		s.preferred = nil
@@ -426,10 +433,9 @@ func (s *sched) dispatch(from *thread, op string) {
 		if tail != nil {
 			slots = append(slots, tail)
 		}
-		nReal := len(cands)
-		if tail != nil {
-			nReal++
-		}
+		// optional threads (environment events such as a kill) come last: every scheduling point offers them
+		// as a deviation, the base schedule takes them only when nothing else is left
+		slots = append(slots, optional...)
 		n := len(slots)
 		if n == 0 {
 			s.finishFrom(VDeadlock)
@@ -577,6 +583,31 @@ func Yield() {
 
 // Go starts a managed thread.
 func Go(f func()) { GoNamed("", f) }
+
+// GoOptional starts a thread that the base schedule never runs while anything else (another thread or
+// the clock) can make progress; at every scheduling point running it is one deviation. Used for
+// environment events that may happen at any instant (kill -9).
+func GoOptional(name string, f func()) {
+	s, _ := me()
+	if s == nil {
+		panic("vsched.GoOptional outside a controlled execution")
+	}
+	t := s.spawn(name, f)
+	t.optional = true
+}
+
+// Stop ends the execution at once with verdict VStopped; the caller does not return.
+func Stop() {
+	s, t := me()
+	if s == nil {
+		panic("vsched.Stop outside a controlled execution")
+	}
+	if s.poisoned {
+		panic(poison)
+	}
+	s.finishFrom(VStopped)
+	s.stopHere(t)
+}
 
 func GoNamed(name string, f func()) {
 	s, _ := me()
